@@ -228,7 +228,8 @@ fn token_alphabet() -> Vec<Token<'static>> {
         v.push(Token::Map(n));
         v.push(Token::Tag(Tag::new(n)));
     }
-    for n in [0u8, 19, 32, 255] {
+    // 20..=31 included: whatever bytes the encoder chooses for them (see the C03 finding), the token must come back
+    for n in [0u8, 19, 20, 23, 24, 31, 32, 255] {
         v.push(Token::Simple(n));
     }
     v
@@ -327,7 +328,7 @@ pub fn run(r: &Report) {
         let sub = "token-sequences";
         let alpha = token_alphabet();
         let depth = if thorough { 4 } else { 3 };
-        r.space(sub, true, &format!("all token sequences of length <= {} over a {}-token alphabet (every variant with boundary payloads; Simple(20..=31) excluded: not well-formed, see C03)", depth, alpha.len()), 1);
+        r.space(sub, true, &format!("all token sequences of length <= {} over a {}-token alphabet (every variant with boundary payloads, Simple(20..=31) included)", depth, alpha.len()), 1);
         let na = alpha.len();
         mcx::par::run_shards(
             na * na,
